@@ -87,6 +87,7 @@ def _setup(extra=None, stub_now=True):
 
 def run(ctx):
     rep, world = ctx.report, ctx.world
+    THOROUGH[0] = ctx.thorough
     rep.explanation = (
         'The comparison predicates, normalize_time, parse_isotime, utcnow / '
         'utcnow_ts / advance_time_* under an overridden clock and the '
@@ -148,6 +149,7 @@ def _clock_sources(ctx):
     rep.count('wall-clock reads in timeutils', n, floor=3)
 
 
+THOROUGH = [False]
 BASE = dt.datetime(2600, 1, 1, 12, 0, 0, 500000)
 US = dt.timedelta(microseconds=1)
 
@@ -159,7 +161,10 @@ def _times(offsets):
         for eps in (-US, dt.timedelta(0), US):
             t = BASE + dt.timedelta(seconds=s) + eps
             out.append(t)
-            for z in (tz(2), tz(-23, -59), UTC, tz(5, 30)):
+            zones = (tz(2), tz(-23, -59), UTC, tz(5, 30))
+            if THOROUGH[0]:
+                zones += (tz(14), tz(-12), tz(0, 1), tz(23, 59), tz(-9, -30))
+            for z in zones:
                 out.append(t.replace(tzinfo=UTC).astimezone(z))
     return out
 
@@ -173,6 +178,9 @@ def _naive_utc(t):
 def _predicates(ctx):
     rep, world = ctx.report, ctx.world
     secs = (0, 1, 10.5, -1, 2 ** 34, 3600)
+    if THOROUGH[0]:
+        secs += (0.000001, 86400, 59.999999, -0.5, 31536000, 1e-7, 2 ** 31,
+                 -86400.000001)
     for fname, sign, soon in (('is_older_than', -1, False),
                               ('is_newer_than', 1, False),
                               ('is_soon', 1, True)):
